@@ -1004,6 +1004,12 @@ def c13(tier):
     # headgap/regress is the known finding, anything else is reported
     gen_and_replay(rep, colsets[0], dict(feat=("crash", "corrupt"), maxops=2, maxcrash=4, maxaux=6, invariants=("TypeOK",)),
                    num, 30, SEED + 5, 2, 2, small=True, label="c13_known", known_damage=True)
+    # "files from an earlier generation" as the code itself may leave them: a clean-up interrupted between two
+    # truncations (crash images aimed at the truncate / unlink instants); recorded histories validated by TLC, whose
+    # specification truncates the oldest applied file first
+    for j in range(4 if thorough else 2):
+        record_and_validate(rep, colsets[j % 2], 6, 3, 700 if thorough else 350, SEED * 457 + j, crash=5, label="c13t%d" % j,
+                            small=True)
     return rep.finish()
 
 
